@@ -83,13 +83,18 @@ func (e *Engine) tryReplay(ob *Obligation, id, repo, verif, replayPath string) (
 		ovf := filepath.Join(scratch, "overlay.json")
 		os.WriteFile(ovf, ovb, 0o644)
 		model, _ := json.Marshal(parseModel(ob))
-		cmd := exec.Command("go", "test", "-overlay", ovf, "-vet=off", "-count=1", "-timeout", "120s", "-run", run, "./"+pkg)
+		goArgs := []string{"test"}
+		if fl := get("replay-flags"); fl != "" {
+			goArgs = append(goArgs, strings.Fields(fl)...)
+		}
+		goArgs = append(goArgs, "-overlay", ovf, "-vet=off", "-count=1", "-timeout", "120s", "-run", run, "./"+pkg)
+		cmd := exec.Command("go", goArgs...)
 		cmd.Dir = repo
 		cmd.Env = append(os.Environ(), "GOFLAGS=-mod=mod", "GOPROXY=off", "GOSUMDB=off", "GOTOOLCHAIN=local", "VERIF_MODEL="+string(model), "VERIF_OBLIGATION="+ob.Name)
 		t0 := time.Now()
 		out, err := cmd.CombinedOutput()
 		secs := time.Since(t0).Seconds()
-		failed := err != nil && strings.Contains(string(out), "--- FAIL")
+		failed := err != nil && (strings.Contains(string(out), "--- FAIL") || strings.Contains(string(out), "DATA RACE"))
 		// append to the replay file
 		var info map[string]interface{}
 		if b, rerr := os.ReadFile(replayPath); rerr == nil {
